@@ -4,10 +4,11 @@ MaxGroups = 1000
 Letters <- LettersAll
 Modes <- ModesFree
 Coords <- CoordsSmall
+MCoords <- CoordsSmall
 Radii <- RadiiSmall
 Rots <- RotsSmall
-ExclZ = TRUE
-ExclDeg = TRUE
-ExclZeroL = TRUE
+ExclZ = FALSE
+ExclDeg = FALSE
+ExclZeroL = FALSE
 INVARIANTS InRange Counters Incremental EmitAcc
 CHECK_DEADLOCK FALSE
